@@ -550,7 +550,7 @@ pub fn dec_icl(c: &ICL) -> (Vec<usize>, Vec<T>) {
 /// the object map of the harness functor families, on one label
 pub fn fam_obj(fam: u64, l: T) -> Vec<T> {
     match fam {
-        0 | 4 | 5 => vec![l],
+        0 | 4 | 5 | 6 => vec![l],
         1 => vec![l, l],
         2 => vec![],
         3 => {
@@ -1174,4 +1174,121 @@ pub fn c19_build(inp: &PV) -> PV {
             PV::Tag("Err".into(), vec![pv_lax(&f)])
         }
     }
+}
+
+// ------------------------------------------------------------------ lax functors (C12 lax half, C13) and lax optics (C14 lax half)
+#[derive(Clone)]
+pub struct LaxFam(pub u64);
+fn lvec(ts: Vec<T>) -> Vec<L> {
+    ts.into_iter().map(K::mk_l).collect()
+}
+fn lax_expand(fam: u64, ls: &[L]) -> Vec<L> {
+    ls.iter().flat_map(|l| lvec(fam_obj(fam, K::rd_l(l)))).collect()
+}
+impl lax::functor::Functor<L, L, L, L> for LaxFam {
+    fn map_object(&self, o: &L) -> impl ExactSizeIterator<Item = L> {
+        lvec(fam_obj(self.0, K::rd_l(o))).into_iter()
+    }
+    fn map_operation(&self, x: &L, source: &[L], target: &[L]) -> LOH {
+        let (a, b) = (lax_expand(self.0, source), lax_expand(self.0, target));
+        match self.0 {
+            0 | 1 | 2 | 3 => LOH::singleton(x.clone(), a, b),
+            // composite image built with lax composition: it still carries its pending unifications
+            4 => <LOH as Arrow>::compose(&LOH::singleton(x.clone(), a, b.clone()), &LOH::singleton(x.clone(), b.clone(), b)).expect("harness: well typed"),
+            // spider-only image: discard the inputs, create the outputs
+            5 => {
+                let (na, nb) = (a.len(), b.len());
+                let mut w = a;
+                w.extend(b);
+                LOH::spider(FiniteFunction::<VK>::inj0(na, nb), FiniteFunction::<VK>::inj1(na, nb), w).expect("harness: spider")
+            }
+            // the composite image again, built imperatively with explicit unifications
+            6 => {
+                let mut f = LOH::empty();
+                let (_, (s1, t1)) = f.new_operation(x.clone(), a, b.clone());
+                let (_, (s2, t2)) = f.new_operation(x.clone(), b.clone(), b);
+                for (u, v) in t1.iter().zip(s2.iter()) {
+                    f.unify(*v, *u);
+                }
+                f.sources = s1;
+                f.targets = t2;
+                f
+            }
+            _ => panic!("ENGINE-ERROR: unknown functor family"),
+        }
+    }
+    fn map_arrow(&self, f: &LOH) -> LOH {
+        lax::functor::dyn_functor::define_map_arrow(self, f)
+    }
+}
+pub fn c12_lax_map(inp: &PV) -> PV {
+    use lax::functor::Functor as LF;
+    let f = lax_build(inp.at(0).lax());
+    let fam = tm::as_const(inp.at(1).t()).expect("family");
+    let via_strict = if fam == 0 { LF::map_arrow(&lax::functor::dyn_functor::Identity, &f) } else { LF::map_arrow(&LaxFam(fam), &f) };
+    PV::List(vec![pv_lax(&via_strict)])
+}
+pub fn c13_native(inp: &PV) -> PV {
+    let f = lax_build(inp.at(0).lax());
+    let fam = tm::as_const(inp.at(1).t()).expect("family");
+    let fun = LaxFam(fam);
+    let native = lax::functor::try_define_map_arrow(&fun, &f);
+    let wit = lax::functor::map_arrow_witness(&fun, &f);
+    let iw = crate::explore::iw();
+    let w = match wit {
+        None => PV::None,
+        Some((r, w)) => PV::Some(Box::new(PV::List(vec![
+            pv_lax(&r),
+            PV::of_ts(&w.sources.table.0.iter().map(|v| tm::c(*v as u64, iw)).collect::<Vec<T>>()),
+            PV::of_ts(&w.values.table.0.iter().map(|v| tm::c(*v as u64, iw)).collect::<Vec<T>>()),
+            PV::T(tm::c(w.values.target as u64, iw)),
+        ]))),
+    };
+    // the path through the strict representation, for the same functor
+    let via_strict = {
+        use lax::functor::Functor as LF;
+        if f.hypergraph.is_strict() {
+            Some(LF::map_arrow(&fun, &f))
+        } else {
+            None
+        }
+    };
+    PV::List(vec![pv_opt_lax(native), w, pv_opt_lax(via_strict)])
+}
+#[derive(Clone)]
+pub struct LaxLens {
+    pub ff: u64,
+    pub rf: u64,
+    pub r: usize,
+}
+impl lax::optic::Optic<L, L, L, L> for LaxLens {
+    fn fwd_object(&self, o: &L) -> Vec<L> {
+        lvec(fam_obj(self.ff, K::rd_l(o)))
+    }
+    fn rev_object(&self, o: &L) -> Vec<L> {
+        lvec(fam_obj(self.rf, K::rd_l(o)))
+    }
+    fn residual(&self, a: &L) -> Vec<L> {
+        vec![a.clone(); self.r]
+    }
+    fn fwd_operation(&self, x: &L, source: &[L], target: &[L]) -> LOH {
+        let a = lax_expand(self.ff, source);
+        let mut b = lax_expand(self.ff, target);
+        b.extend(vec![x.clone(); self.r]);
+        // composed with an identity so that the image carries pending unifications
+        <LOH as Arrow>::compose(&LOH::singleton(x.clone(), a, b.clone()), &LOH::identity(b)).expect("harness")
+    }
+    fn rev_operation(&self, x: &L, source: &[L], target: &[L]) -> LOH {
+        let mut s = vec![x.clone(); self.r];
+        s.extend(lax_expand(self.rf, target));
+        let t = lax_expand(self.rf, source);
+        <LOH as Arrow>::compose(&LOH::identity(s.clone()), &LOH::singleton(x.clone(), s, t)).expect("harness")
+    }
+}
+pub fn c14_lax(inp: &PV) -> PV {
+    use lax::optic::Optic as LO;
+    let f = lax_build(inp.at(0).lax());
+    let (ff, rf, r) = lens_params(inp, 1);
+    let o = LaxLens { ff, rf, r };
+    PV::List(vec![pv_lax(&LO::map_arrow(&o, f.clone())), pv_lax(&LO::map_adapted(&o, f))])
 }
